@@ -42,6 +42,12 @@ def minor_of(prog, const_def):
     """minor number of an aldrin_core::ProtocolVersion associated constant"""
     b = prog.body(const_def)
     if b is None:
+        # constants referenced from another crate print through their visible path (aldrin_core::ProtocolVersion::V1_14),
+        # the body is keyed by the canonical one (aldrin_core::protocol_version::ProtocolVersion::V1_14)
+        tail = "::" + "::".join(const_def.split("::")[-2:])
+        cand = [d for d in prog.bodies if d.endswith(tail) and d.split("::")[0] == const_def.split("::")[0]]
+        b = prog.body(cand[0]) if len(cand) == 1 else None
+    if b is None:
         return None
     for i in sorted(b.live_blocks()):
         for st in b.blocks[i]["s"]:
@@ -94,11 +100,13 @@ def run(rep):
         if ok:
             val[k] = minor_of(prog, v[0][len("const:"):])
     rep.floor("C12-R1", "version constants", len(val), 9)
+    rep.check(len(val) == 9 and all(val.values()), "C12-R1", "version-constants", "values-evaluated", "the numeric value of a version constant could not be evaluated: %s" % val, detail={k: str(v) for k, v in val.items()})
     if len(val) == 9 and all(val.values()):
         eqs = [
             ("MIN = epoch-1 MIN = legacy handshake = 1.14", val["acceptor.MIN"] == val["epoch.V1_MIN"] == val["client.connect1"] == (1, 14)),
             ("MAX = epoch-2 MAX = converter MAX = client handshake = 1.20", val["acceptor.MAX"] == val["epoch.V2_MAX"] == val["convert.MAX"] == val["client.connect2"] == (1, 20)),
             ("epoch-1 MAX + 1 = epoch-2 MIN", val["epoch.V1_MAX"][0] == val["epoch.V2_MIN"][0] and val["epoch.V1_MAX"][1] + 1 == val["epoch.V2_MIN"][1]),
+            ("the value encoding changes at 1.20 (properties C12/C13: 'a protocol version before 1.20', 'encodings introduced in 1.20'): epoch-2 MIN = 1.20, epoch-1 MAX = 1.19", val["epoch.V2_MIN"] == (1, 20) and val["epoch.V1_MAX"] == (1, 19)),
             ("epoch-2 MIN <= epoch-2 MAX, epoch-1 MIN <= epoch-1 MAX", val["epoch.V2_MIN"] <= val["epoch.V2_MAX"] and val["epoch.V1_MIN"] <= val["epoch.V1_MAX"]),
         ]
         for name, ok in eqs:
